@@ -1,4 +1,1105 @@
-use crate::{ctx::CaseOut, Params};
-pub fn case(_idx: u64, _seed: u64, _p: &Params, o: &mut CaseOut) {
-    o.skipped = true;
+//! C13 — the safe API is memory-safe and leak-free for every argument.
+//!
+//! The oracle is the process outcome: return and Rust panic are the only good
+//! outcomes. Sanitizer reports, UB-precondition aborts and signals are seen by
+//! the driver; this file produces the workload (probes, short programs) and
+//! the heap-growth monitor.
+
+use crate::alloc;
+use crate::ctx::{catch, CaseOut};
+use crate::gen;
+use crate::model::Model;
+use crate::reprs::*;
+use crate::rng::{Fp, Rng};
+use crate::Params;
+use graaf::*;
+use std::collections::{BTreeMap, BTreeSet};
+
+const CAP: usize = 64;
+
+/// Vertex argument: in range, last, order, order + 1, far; for sparse vertex
+/// sets also ids in the gaps.
+fn arg(r: &mut Rng, m: &Model) -> usize {
+    let vs = m.vert_list();
+    let top = vs.iter().max().map_or(0, |x| x + 1);
+    match r.below(12) {
+        0 => 0,
+        1 => top.saturating_sub(1),
+        2 => top,
+        3 => top + 1,
+        4 => m.n(),
+        5 => m.n() + 1,
+        6 => 1000,
+        7 => 1 << 20,
+        8 => r.below(top + 2),
+        _ => {
+            if vs.is_empty() {
+                0
+            } else {
+                *r.pick(&vs)
+            }
+        }
+    }
+}
+
+fn srcs(r: &mut Rng, m: &Model) -> Vec<usize> {
+    let k = *r.pick(&[1usize, 1, 1, 2, 3, 0]);
+    (0..k).map(|_| arg(r, m)).collect()
+}
+
+const TRAV: [&str; 12] = [
+    "Bfs::next",
+    "BfsDist::next",
+    "BfsDist::distances",
+    "BfsPred::next",
+    "BfsPred::predecessors",
+    "BfsPred::shortest_path",
+    "BfsPred::cycles",
+    "Dfs::next",
+    "DfsDist::next",
+    "DfsPred::next",
+    "DfsPred::predecessors",
+    "Tarjan::components",
+];
+
+fn traverse<D: Order + OutNeighbors + Vertices>(d: &D, t: usize, s: &[usize], tgt: usize) {
+    let it = || s.iter().copied();
+    let _ = catch(|| match t {
+        0 => {
+            let _ = Bfs::new(d, it()).take(CAP).count();
+        }
+        1 => {
+            let _ = BfsDist::new(d, it()).take(CAP).count();
+        }
+        2 => {
+            let _ = BfsDist::new(d, it()).distances();
+        }
+        3 => {
+            let _ = BfsPred::new(d, it()).take(CAP).count();
+        }
+        4 => {
+            let _ = BfsPred::new(d, it()).predecessors();
+        }
+        5 => {
+            let _ = BfsPred::new(d, it()).shortest_path(|v| v == tgt);
+        }
+        6 => {
+            let _ = BfsPred::new(d, it()).cycles();
+        }
+        7 => {
+            let _ = Dfs::new(d, it()).take(CAP).count();
+        }
+        8 => {
+            let _ = DfsDist::new(d, it()).take(CAP).count();
+        }
+        9 => {
+            let _ = DfsPred::new(d, it()).take(CAP).count();
+        }
+        10 => {
+            let _ = DfsPred::new(d, it()).predecessors();
+        }
+        _ => {
+            let _ = Tarjan::new(d).components().len();
+        }
+    });
+}
+
+const QUERY: [&str; 10] = [
+    "out_neighbors",
+    "in_neighbors",
+    "indegree/outdegree/degree",
+    "is_sink/is_source/is_isolated/is_pendant",
+    "has_arc/has_edge",
+    "has_walk",
+    "degree sequences and extrema",
+    "sinks/sources",
+    "structural predicates",
+    "pair predicates",
+];
+
+fn query<D>(d: &D, q: usize, a: usize, b: usize, walk: &[usize])
+where
+    D: Order
+        + Vertices
+        + Arcs
+        + Size
+        + HasArc
+        + HasEdge
+        + HasWalk
+        + OutNeighbors
+        + InNeighbors
+        + Indegree
+        + Outdegree
+        + Degree
+        + IsIsolated
+        + IsPendant
+        + Sinks
+        + Sources
+        + DegreeSequence
+        + IndegreeSequence
+        + OutdegreeSequence
+        + SemidegreeSequence
+        + IsComplete
+        + IsSemicomplete
+        + IsTournament
+        + IsRegular
+        + IsBalanced
+        + IsSymmetric
+        + IsOriented
+        + IsSimple
+        + IsSubdigraph
+        + IsSuperdigraph
+        + IsSpanningSubdigraph,
+{
+    match q {
+        0 => {
+            let _ = catch(|| d.out_neighbors(a).take(CAP).count());
+        }
+        1 => {
+            let _ = catch(|| d.in_neighbors(a).take(CAP).count());
+        }
+        2 => {
+            let _ = catch(|| d.indegree(a));
+            let _ = catch(|| d.outdegree(a));
+            let _ = catch(|| d.degree(a));
+        }
+        3 => {
+            let _ = catch(|| d.is_sink(a));
+            let _ = catch(|| d.is_source(a));
+            let _ = catch(|| d.is_isolated(a));
+            let _ = catch(|| d.is_pendant(a));
+        }
+        4 => {
+            let _ = catch(|| d.has_arc(a, b));
+            let _ = catch(|| d.has_edge(a, b));
+        }
+        5 => {
+            let _ = catch(|| d.has_walk(walk));
+        }
+        6 => {
+            let _ = catch(|| d.degree_sequence().count());
+            let _ = catch(|| d.indegree_sequence().count());
+            let _ = catch(|| d.outdegree_sequence().count());
+            let _ = catch(|| d.semidegree_sequence().count());
+            let _ = catch(|| (d.max_degree(), d.min_degree(), d.max_indegree(), d.min_indegree(), d.max_outdegree(), d.min_outdegree()));
+        }
+        7 => {
+            let _ = catch(|| d.sinks().count());
+            let _ = catch(|| d.sources().count());
+            let _ = catch(|| (d.order(), d.size(), d.vertices().count(), d.arcs().count()));
+        }
+        8 => {
+            let _ = catch(|| d.is_complete());
+            let _ = catch(|| d.is_semicomplete());
+            let _ = catch(|| d.is_tournament());
+            let _ = catch(|| d.is_regular());
+            let _ = catch(|| d.is_balanced());
+            let _ = catch(|| d.is_symmetric());
+            let _ = catch(|| d.is_oriented());
+            let _ = catch(|| d.is_simple());
+        }
+        _ => {
+            let _ = catch(|| d.is_subdigraph(d));
+            let _ = catch(|| d.is_superdigraph(d));
+            let _ = catch(|| d.is_spanning_subdigraph(d));
+        }
+    }
+}
+
+const ALGEBRA: [&str; 3] = ["complement", "converse", "union"];
+
+fn algebra<D: Clone + Complement + Converse + Union>(d: &D, e: &D, k: usize) {
+    match k {
+        0 => {
+            let _ = catch(|| d.complement());
+        }
+        1 => {
+            let _ = catch(|| d.converse());
+        }
+        _ => {
+            let _ = catch(|| d.union(e));
+            let _ = catch(|| e.union(d));
+        }
+    }
+}
+
+fn mutate<D: AddArc + RemoveArc>(d: &mut D, a: usize, b: usize) {
+    let _ = catch(|| d.add_arc(a, b));
+    let _ = catch(|| d.remove_arc(b, a));
+    let _ = catch(|| d.remove_arc(a, b));
+}
+
+/// The probe catalogue. Returns the probe's name; `None` when `id` is past
+/// the end.
+const VARIANTS: [&str; 6] = ["AdjacencyList", "AdjacencyMap", "AdjacencyMap(non-contiguous)", "AdjacencyMatrix", "EdgeList", "AdjacencyListWeighted<usize>"];
+
+macro_rules! on_variant {
+    ($v:expr, $m:expr, $d:ident => $body:expr) => {
+        match $v {
+            0 => {
+                let $d = AdjacencyList::build($m);
+                $body
+            }
+            1 => {
+                let $d = AdjacencyMap::build($m);
+                $body
+            }
+            2 => {
+                let $d = build_map_any($m);
+                $body
+            }
+            3 => {
+                let $d = AdjacencyMatrix::build($m);
+                $body
+            }
+            4 => {
+                let $d = EdgeList::build($m);
+                $body
+            }
+            _ => {
+                let $d = build_w_usize($m);
+                $body
+            }
+        }
+    };
+}
+
+const SPECIAL: [&str; 26] = [
+    "Dijkstra::next",
+    "DijkstraDist::next",
+    "DijkstraDist::distances",
+    "DijkstraPred::next",
+    "DijkstraPred::predecessors",
+    "DijkstraPred::shortest_path",
+    "BellmanFordMoore::new+distances",
+    "FloydWarshall::distances",
+    "PredecessorTree::search (user-built pred)",
+    "PredecessorTree::search_by (user-built pred)",
+    "PredecessorTree::new/Index",
+    "DistanceMatrix::new/Index/metrics",
+    "DistanceMatrix::new (huge order)",
+    "AdjacencyMatrix::empty(2^32)+add_arc/toggle/has_arc/remove_arc",
+    "AdjacencyMatrix::toggle",
+    "AdjacencyMap::filter_vertices (+ operations on an order-0 map)",
+    "Johnson75::circuits (contiguous)",
+    "Johnson75::circuits (non-contiguous)",
+    "AdjacencyMap::union with order-0 / disjoint / nested key sets",
+    "generators with boundary parameters",
+    "From<other representation> (incl. non-contiguous source)",
+    "From<iterator> with invalid rows / arcs",
+    "AdjacencyListWeighted queries with outside ids",
+    "AdjacencyListWeighted::add_arc_weighted/remove_arc",
+    "Xoshiro256StarStar",
+    "AdjacencyMap is_semicomplete/is_tournament/converse/complement (non-contiguous)",
+];
+
+pub fn n_probes() -> usize {
+    (TRAV.len() + QUERY.len() + 1) * VARIANTS.len() + ALGEBRA.len() * 5 + SPECIAL.len()
+}
+
+fn small_model(r: &mut Rng, max: usize) -> Model {
+    let f = r.below(gen::FAMILIES.len());
+    let n = r.range(1, max);
+    gen::family(r, f, n)
+}
+
+fn w_usize(r: &mut Rng, m: &Model) -> Model {
+    let mut m = m.clone();
+    gen::weights(r, &mut m, gen::WClass::Small);
+    m
+}
+
+fn probe(id: usize, r: &mut Rng, max: usize) -> String {
+    let nv = VARIANTS.len();
+    let m0 = small_model(r, max);
+    let sparse = gen::sparsify(r, &m0);
+    let mut id = id;
+    // traversals
+    if id < TRAV.len() * nv {
+        let (t, v) = (id / nv, id % nv);
+        let m = if v == 2 { &sparse } else { &m0 };
+        let s = srcs(r, m);
+        let tgt = arg(r, m);
+        on_variant!(v, m, d => traverse(&d, t, &s, tgt));
+        return format!("{} on {} sources={s:?} D: {}", TRAV[t], VARIANTS[v], m.describe());
+    }
+    id -= TRAV.len() * nv;
+    if id < QUERY.len() * nv {
+        let (q, v) = (id / nv, id % nv);
+        let m = if v == 2 { &sparse } else { &m0 };
+        let (a, b) = (arg(r, m), arg(r, m));
+        let walk: Vec<usize> = (0..r.below(5)).map(|_| arg(r, m)).collect();
+        on_variant!(v, m, d => query(&d, q, a, b, &walk));
+        return format!("{} on {} args=({a},{b}) walk={walk:?} D: {}", QUERY[q], VARIANTS[v], m.describe());
+    }
+    id -= QUERY.len() * nv;
+    if id < nv {
+        let v = id;
+        let m = if v == 2 { &sparse } else { &m0 };
+        let (a, b) = (arg(r, m), arg(r, m));
+        match v {
+            0 => mutate(&mut AdjacencyList::build(m), a, b),
+            1 => mutate(&mut AdjacencyMap::build(m), a, b),
+            2 => mutate(&mut build_map_any(m), a, b),
+            3 => mutate(&mut AdjacencyMatrix::build(m), a, b),
+            4 => mutate(&mut EdgeList::build(m), a, b),
+            _ => {
+                let mut d = build_w_usize(m);
+                let _ = catch(|| d.add_arc_weighted(a, b, 3));
+                let _ = catch(|| d.remove_arc(a, b));
+            }
+        }
+        return format!("add_arc/remove_arc on {} args=({a},{b}) D: {}", VARIANTS[v], m.describe());
+    }
+    id -= nv;
+    if id < ALGEBRA.len() * 5 {
+        let (k, v) = (id / 5, id % 5);
+        let m1 = small_model(r, max);
+        let sp1 = gen::sparsify(r, &m1);
+        match v {
+            0 => algebra(&AdjacencyList::build(&m0), &AdjacencyList::build(&m1), k),
+            1 => algebra(&AdjacencyMap::build(&m0), &AdjacencyMap::build(&m1), k),
+            2 => algebra(&build_map_any(&sparse), &build_map_any(&sp1), k),
+            3 => algebra(&AdjacencyMatrix::build(&m0), &AdjacencyMatrix::build(&m1), k),
+            _ => algebra(&EdgeList::build(&m0), &EdgeList::build(&m1), k),
+        }
+        return format!("{} on {} D: {} E: {}", ALGEBRA[k], VARIANTS[v], if v == 2 { sparse.describe() } else { m0.describe() }, if v == 2 { sp1.describe() } else { m1.describe() });
+    }
+    id -= ALGEBRA.len() * 5;
+    let name = SPECIAL[id.min(SPECIAL.len() - 1)];
+    let mut extra = String::new();
+    match id {
+        0..=5 => {
+            let mw = w_usize(r, &m0);
+            let d = build_w_usize(&mw);
+            let s = srcs(r, &mw);
+            let tgt = arg(r, &mw);
+            let it = || s.iter().copied();
+            let _ = catch(|| match id {
+                0 => {
+                    let _ = Dijkstra::new(&d, it()).take(CAP).count();
+                }
+                1 => {
+                    let _ = DijkstraDist::new(&d, it()).take(CAP).count();
+                }
+                2 => {
+                    let _ = DijkstraDist::new(&d, it()).distances();
+                }
+                3 => {
+                    let _ = DijkstraPred::new(&d, it()).take(CAP).count();
+                }
+                4 => {
+                    let _ = DijkstraPred::new(&d, it()).predecessors();
+                }
+                _ => {
+                    let _ = DijkstraPred::new(&d, it()).shortest_path(|v| v == tgt);
+                }
+            });
+            extra = format!("sources={s:?} D: {}", mw.describe());
+        }
+        6 => {
+            let mut mw = m0.clone();
+            gen::weights(r, &mut mw, gen::WClass::MixedNeg);
+            let d = build_w_isize(&mw);
+            let s = arg(r, &mw);
+            let _ = catch(|| BellmanFordMoore::new(&d, s).distances().map(<[isize]>::to_vec));
+            extra = format!("source={s} D: {}", mw.describe());
+        }
+        7 => {
+            let mut mw = m0.clone();
+            gen::weights(r, &mut mw, gen::WClass::MixedNeg);
+            let d = build_w_isize(&mw);
+            let _ = catch(|| {
+                let mut fw = FloydWarshall::new(&d);
+                let dm = fw.distances();
+                (dm.diameter().to_owned(), dm.center(), dm.periphery().count(), dm.is_connected())
+            });
+            extra = format!("D: {}", mw.describe());
+        }
+        8 | 9 => {
+            // user-built predecessor vector with entries in range, order,
+            // order + 1 and far
+            let n = r.range(1, 6);
+            let pred: Vec<Option<usize>> = (0..n)
+                .map(|_| match r.below(8) {
+                    0 => None,
+                    1 => Some(n),
+                    2 => Some(n + 1),
+                    3 => Some(*r.pick(&[1000usize, 1 << 20, usize::MAX])),
+                    _ => Some(r.below(n)),
+                })
+                .collect();
+            let (x, y) = (r.below(n), r.below(n));
+            let s = *r.pick(&[0, n - 1, n, x]);
+            let t = *r.pick(&[0, n - 1, n, 1000, y]);
+            let tree = PredecessorTree::from(pred.clone());
+            if id == 8 {
+                let _ = catch(|| tree.search(s, t));
+            } else {
+                let _ = catch(|| tree.search_by(s, |&v, p| v == t || p.is_none()));
+                let _ = catch(|| tree.search_by(s, |_, _| false));
+            }
+            extra = format!("pred={pred:?} s={s} t={t}");
+        }
+        10 => {
+            let n = r.below(4);
+            let _ = catch(|| {
+                let mut t = PredecessorTree::new(n);
+                t[0] = Some(7);
+                let x = t[n];
+                (x, t.into_iter().count())
+            });
+            extra = format!("order={n}");
+        }
+        11 => {
+            let n = r.below(5);
+            let (a, b) = (r.below(n + 2), r.below(n + 2));
+            let _ = catch(|| {
+                let mut dm = DistanceMatrix::<usize>::new(n, usize::MAX);
+                dm[(a.min(n.saturating_sub(1)), 0)] = 3;
+                let x = dm[(a, b)];
+                let y = dm[a * n + b];
+                (x, y, dm.center(), *dm.diameter(), dm.periphery().count(), dm.is_connected(), dm.eccentricities().count())
+            });
+            let _ = catch(|| {
+                let dm = DistanceMatrix::<isize>::new(n, isize::MAX);
+                dm[..].len() + dm[0..n].len()
+            });
+            extra = format!("order={n} index=({a},{b})");
+        }
+        12 => {
+            let n = *r.pick(&[1usize << 32, (1 << 32) + 1, 1 << 63, usize::MAX]);
+            let _ = catch(|| DistanceMatrix::<u8>::new(n, 0).order);
+            extra = format!("order={n}");
+        }
+        13 => {
+            let n = 1usize << 32;
+            let (a, b) = (*r.pick(&[0usize, 1, 5, 1 << 31]), *r.pick(&[1usize, 2, 64, 1 << 20, (1 << 32) - 1]));
+            let _ = catch(|| {
+                let mut d = AdjacencyMatrix::empty(n);
+                if a != b {
+                    d.add_arc(a, b);
+                    d.toggle(b, a);
+                    let _ = d.remove_arc(a, b);
+                }
+                d.has_arc(a, b)
+            });
+            extra = format!("order=2^32 arc=({a},{b})");
+        }
+        14 => {
+            let (a, b) = (arg(r, &m0), arg(r, &m0));
+            let mut d = AdjacencyMatrix::build(&m0);
+            let _ = catch(|| d.toggle(a, b));
+            extra = format!("toggle({a},{b}) D: {}", m0.describe());
+        }
+        15 => {
+            let d = build_map_any(&sparse);
+            let k = arg(r, &sparse);
+            let _ = catch(|| d.filter_vertices(|v| v > k).order());
+            let z = catch(|| d.filter_vertices(|_| false));
+            if let Ok(z) = z {
+                // operations on an order-0 map
+                let _ = catch(|| z.complement());
+                let _ = catch(|| z.converse());
+                let _ = catch(|| z.union(&d));
+                let _ = catch(|| d.union(&z));
+                let _ = catch(|| z.union(&z));
+                let _ = catch(|| z.is_complete());
+                let _ = catch(|| z.is_semicomplete());
+                let _ = catch(|| z.is_tournament());
+                let _ = catch(|| z.is_regular());
+                let _ = catch(|| z.degree_sequence().count());
+                let _ = catch(|| Bfs::new(&z, [0usize].into_iter()).count());
+                let _ = catch(|| Dfs::new(&z, [0usize].into_iter()).count());
+                let _ = catch(|| Johnson75::new(&z).circuits());
+                let _ = catch(|| Tarjan::new(&z).components().len());
+                let _ = catch(|| AdjacencyList::from(z.clone()));
+            }
+            extra = format!("threshold={k} D: {}", sparse.describe());
+        }
+        16 => {
+            let d = AdjacencyMap::build(&m0);
+            let _ = catch(|| Johnson75::new(&d).circuits().len());
+            extra = format!("D: {}", m0.describe());
+        }
+        17 => {
+            let d = build_map_any(&sparse);
+            let _ = catch(|| Johnson75::new(&d).circuits().len());
+            extra = format!("D: {}", sparse.describe());
+        }
+        18 => {
+            let a = build_map_any(&sparse);
+            let m1 = small_model(r, max);
+            let other = match r.below(3) {
+                0 => gen::sparsify(r, &m1),
+                1 => sparse.induced(|v| v % 2 == 0),
+                _ => m1,
+            };
+            if other.n() > 0 {
+                let b = build_map_any(&other);
+                let _ = catch(|| a.union(&b).order());
+                let _ = catch(|| b.union(&a).order());
+            }
+            extra = format!("A: {} B: {}", sparse.describe(), other.describe());
+        }
+        19 => {
+            let n = *r.pick(&[0usize, 1, 2, 3, 4, 5, 17]);
+            let k = r.below(4);
+            let g = r.below(11);
+            let seed = r.next();
+            macro_rules! gens {
+                ($T:ty) => {{
+                    let _ = catch(|| match g {
+                        0 => <$T>::empty(n).order(),
+                        1 => <$T>::complete(n).order(),
+                        2 => <$T>::circuit(n).order(),
+                        3 => <$T>::cycle(n).order(),
+                        4 => <$T>::path(n).order(),
+                        5 => <$T>::star(n).order(),
+                        6 => <$T>::wheel(n).order(),
+                        7 => <$T>::biclique(n, k).order(),
+                        8 => <$T>::random_tournament(n, seed).order(),
+                        9 => <$T>::random_recursive_tree(n, seed).order(),
+                        _ => <$T>::erdos_renyi(n, *[0.0, 0.5, 1.0, -0.1, 1.5, f64::NAN].get(k).unwrap_or(&0.3), seed).order(),
+                    });
+                }};
+            }
+            gens!(AdjacencyList);
+            gens!(AdjacencyMap);
+            gens!(AdjacencyMatrix);
+            gens!(EdgeList);
+            extra = format!("generator #{g} order={n} k={k}");
+        }
+        20 => {
+            let d = build_map_any(&sparse);
+            let _ = catch(|| AdjacencyList::from(d.clone()).order());
+            let _ = catch(|| AdjacencyMatrix::from(d.clone()).order());
+            let _ = catch(|| EdgeList::from(d.clone()).order());
+            let _ = catch(|| AdjacencyListWeighted::<usize>::from(d.clone()).order());
+            let _ = catch(|| AdjacencyListWeighted::<isize>::from(d.clone()).order());
+            let c = AdjacencyMatrix::build(&m0);
+            let _ = catch(|| AdjacencyMap::from(c.clone()).order());
+            let _ = catch(|| AdjacencyList::from(c.clone()).order());
+            let _ = catch(|| EdgeList::from(c).order());
+            extra = format!("D: {} C: {}", sparse.describe(), m0.describe());
+        }
+        21 => {
+            let n = r.range(0, 4);
+            let rows: Vec<BTreeSet<usize>> = (0..n).map(|_| (0..r.below(3)).map(|_| r.below(n + 2)).collect()).collect();
+            let arcs: Vec<(usize, usize)> = (0..r.below(4)).map(|_| (r.below(4), r.below(4))).collect();
+            let wrows: Vec<BTreeMap<usize, usize>> = rows.iter().map(|s| s.iter().map(|&v| (v, 1)).collect()).collect();
+            let _ = catch(|| AdjacencyList::from(rows.clone()).order());
+            let _ = catch(|| AdjacencyMap::from(rows.clone()).order());
+            let _ = catch(|| AdjacencyMatrix::from(arcs.clone()).order());
+            let _ = catch(|| EdgeList::from(arcs.clone()).order());
+            let _ = catch(|| AdjacencyListWeighted::<usize>::from(wrows.clone()).order());
+            extra = format!("rows={rows:?} arcs={arcs:?}");
+        }
+        22 => {
+            let mw = w_usize(r, &m0);
+            let d = build_w_usize(&mw);
+            let (a, b) = (arg(r, &mw), arg(r, &mw));
+            let _ = catch(|| d.arc_weight(a, b).copied());
+            let _ = catch(|| d.out_neighbors_weighted(a).count());
+            let _ = catch(|| d.arcs_weighted().count());
+            let _ = catch(|| d.converse().order());
+            extra = format!("args=({a},{b}) D: {}", mw.describe());
+        }
+        23 => {
+            let mut d = build_w_isize(&m0);
+            let (a, b) = (arg(r, &m0), arg(r, &m0));
+            let _ = catch(|| d.add_arc_weighted(a, b, -4));
+            let _ = catch(|| d.remove_arc(a, b));
+            extra = format!("args=({a},{b}) D: {}", m0.describe());
+        }
+        24 => {
+            let s = r.next();
+            let _ = catch(|| {
+                let mut g = graaf::gen::prng::Xoshiro256StarStar::new(s);
+                (g.next_f64(), g.next_bool(), g.next())
+            });
+            extra = format!("seed={s}");
+        }
+        _ => {
+            let d = build_map_any(&sparse);
+            let _ = catch(|| d.is_semicomplete());
+            let _ = catch(|| d.is_tournament());
+            let _ = catch(|| d.converse().order());
+            let _ = catch(|| d.complement().order());
+            let _ = catch(|| d.is_complete());
+            extra = format!("D: {}", sparse.describe());
+        }
+    }
+    format!("{name} {extra}")
+}
+
+// ---- heap growth -----------------------------------------------------------
+
+pub const LEAK_OPS: [&str; 40] = [
+    "AdjacencyList::complement",
+    "AdjacencyList::complete",
+    "AdjacencyList::converse",
+    "AdjacencyList::degree_sequence",
+    "AdjacencyList::is_semicomplete",
+    "AdjacencyList::union",
+    "AdjacencyList::erdos_renyi",
+    "AdjacencyList::clone+add_arc",
+    "AdjacencyMap::union (equal keys)",
+    "AdjacencyMap::union (disjoint keys)",
+    "AdjacencyMap::union (partially overlapping keys)",
+    "AdjacencyMap::complement",
+    "AdjacencyMap::converse",
+    "AdjacencyMap::erdos_renyi",
+    "AdjacencyMap::random_tournament",
+    "AdjacencyMap::filter_vertices",
+    "AdjacencyMap::is_semicomplete/is_tournament",
+    "AdjacencyMatrix::complement/converse/union",
+    "EdgeList::complement/converse/union",
+    "AdjacencyListWeighted::converse",
+    "Bfs/BfsDist/BfsPred",
+    "BfsPred::cycles/shortest_path",
+    "Dfs/DfsDist/DfsPred",
+    "Dijkstra/DijkstraDist/DijkstraPred",
+    "BellmanFordMoore::distances",
+    "FloydWarshall::distances + metrics",
+    "Tarjan::components",
+    "Johnson75::circuits",
+    "conversions between representations",
+    "From<iterator>",
+    "generators (all deterministic)",
+    "generators (seeded)",
+    "PredecessorTree::search",
+    "DistanceMatrix::new",
+    "rejected add_arc (panic path)",
+    "rejected traversal source (panic path)",
+    "AdjacencyMap::union with a filtered map",
+    "AdjacencyMap::add_arc/remove_arc history",
+    "AdjacencyMatrix::toggle history",
+    "AdjacencyList::union (different orders)",
+];
+
+struct Fix {
+    m: Model,
+    m2: Model,
+    al: AdjacencyList,
+    al2: AdjacencyList,
+    am: AdjacencyMap,
+    am2: AdjacencyMap,
+    amd: AdjacencyMap,
+    amo: AdjacencyMap,
+    mx: AdjacencyMatrix,
+    el: EdgeList,
+    wu: AdjacencyListWeighted<usize>,
+    wi: AdjacencyListWeighted<isize>,
+}
+
+fn fixtures(r: &mut Rng) -> Fix {
+    let n = r.range(5, 12);
+    let m = gen::random_arcs(r, n, 0.35);
+    let m2 = gen::random_arcs(r, n + 3, 0.3);
+    let mut mw = m.clone();
+    gen::weights(r, &mut mw, gen::WClass::Small);
+    let disjoint = Model {
+        verts: m.verts.iter().map(|v| v + 100).collect(),
+        arcs: m.arcs.iter().map(|(&(u, v), &w)| ((u + 100, v + 100), w)).collect(),
+    };
+    let overlap = Model {
+        verts: m.verts.iter().map(|v| v + n / 2).collect(),
+        arcs: m.arcs.iter().map(|(&(u, v), &w)| ((u + n / 2, v + n / 2), w)).collect(),
+    };
+    Fix {
+        al: AdjacencyList::build(&m),
+        al2: AdjacencyList::build(&m2),
+        am: AdjacencyMap::build(&m),
+        am2: AdjacencyMap::build(&m2),
+        amd: build_map_any(&disjoint),
+        amo: build_map_any(&overlap),
+        mx: AdjacencyMatrix::build(&m),
+        el: EdgeList::build(&m),
+        wu: build_w_usize(&mw),
+        wi: build_w_isize(&mw),
+        m,
+        m2,
+    }
+}
+
+fn leak_op(k: usize, f: &Fix, rep: u64) {
+    let n = f.m.n();
+    let _ = catch(|| match k {
+        0 => drop(f.al.complement()),
+        1 => drop(AdjacencyList::complete(n + 20)),
+        2 => drop(f.al.converse()),
+        3 => drop(f.al.degree_sequence().count()),
+        4 => drop(AdjacencyList::complete(n).is_semicomplete()),
+        5 => drop(f.al.union(&f.al)),
+        6 => drop(AdjacencyList::erdos_renyi(n, 0.5, rep)),
+        7 => {
+            let mut c = f.al.clone();
+            c.add_arc(0, n - 1);
+        }
+        8 => drop(f.am.union(&f.am)),
+        9 => drop(f.am.union(&f.amd)),
+        10 => drop(f.am.union(&f.amo)),
+        11 => drop(f.am.complement()),
+        12 => drop(f.am.converse()),
+        13 => drop(AdjacencyMap::erdos_renyi(n + 20, 0.3, rep)),
+        14 => drop(AdjacencyMap::random_tournament(n + 20, rep)),
+        15 => drop(f.am.filter_vertices(|v| v % 2 == 0)),
+        16 => drop((AdjacencyMap::complete(n).is_semicomplete(), AdjacencyMap::random_tournament(n, 3).is_tournament())),
+        17 => drop((f.mx.complement(), f.mx.converse(), f.mx.union(&f.mx))),
+        18 => drop((f.el.complement(), f.el.converse(), f.el.union(&f.el))),
+        19 => drop((f.wu.converse(), f.wi.converse())),
+        20 => drop((Bfs::new(&f.al, 0..1).count(), BfsDist::new(&f.am, 0..1).distances(), BfsPred::new(&f.mx, 0..1).predecessors())),
+        21 => drop((BfsPred::new(&f.al, 0..1).cycles(), BfsPred::new(&f.el, 0..1).shortest_path(|v| v == n - 1))),
+        22 => drop((Dfs::new(&f.al, 0..1).count(), DfsDist::new(&f.am, 0..1).count(), DfsPred::new(&f.mx, 0..1).predecessors())),
+        23 => drop((
+            Dijkstra::new(&f.wu, 0..1).count(),
+            DijkstraDist::new(&f.wu, 0..1).distances(),
+            DijkstraPred::new(&f.wu, 0..1).shortest_path(|v| v == n - 1),
+        )),
+        24 => drop(BellmanFordMoore::new(&f.wi, 0).distances().map(<[isize]>::to_vec)),
+        25 => {
+            let mut fw = FloydWarshall::new(&f.wi);
+            let d = fw.distances();
+            drop((d.center(), d.periphery().count(), d.is_connected()));
+        }
+        26 => drop(Tarjan::new(&f.am).components().len()),
+        27 => drop(Johnson75::new(&AdjacencyMap::build(&f.m.induced(|v| v < 6))).circuits()),
+        28 => drop((
+            AdjacencyMap::from(f.al.clone()),
+            AdjacencyMatrix::from(f.am.clone()),
+            EdgeList::from(f.mx.clone()),
+            AdjacencyList::from(f.el.clone()),
+            AdjacencyListWeighted::<usize>::from(f.al.clone()),
+        )),
+        29 => drop((AdjacencyList::build_alt(&f.m), AdjacencyMap::build_alt(&f.m), EdgeList::build_alt(&f.m), AdjacencyMatrix::build_alt(&f.m))),
+        30 => drop((AdjacencyList::wheel(n), AdjacencyMap::biclique(3, n), AdjacencyMatrix::star(n), EdgeList::cycle(n), AdjacencyMap::circuit(n), AdjacencyList::path(n))),
+        31 => drop((AdjacencyList::random_tournament(n, rep), AdjacencyMatrix::erdos_renyi(n, 0.4, rep), EdgeList::random_recursive_tree(n, rep), AdjacencyMap::random_recursive_tree(n, rep))),
+        32 => drop(BfsPred::new(&f.al, 0..1).predecessors().search(n - 1, 0)),
+        33 => drop(DistanceMatrix::<isize>::new(n, isize::MAX)),
+        34 => {
+            let mut c = f.al.clone();
+            c.add_arc(0, n + 5);
+        }
+        35 => drop(Bfs::new(&f.mx, [n + 100].into_iter()).count()),
+        36 => drop(f.am.filter_vertices(|v| v > 1).union(&f.am2)),
+        37 => {
+            let mut c = f.am.clone();
+            for i in 0..6 {
+                c.add_arc(i, 200 + i);
+                let _ = c.remove_arc(i, 200 + i);
+            }
+        }
+        38 => {
+            let mut c = f.mx.clone();
+            for i in 1..n {
+                c.toggle(0, i);
+            }
+        }
+        _ => drop((f.al.union(&f.al2), f.al2.union(&f.al))),
+    });
+}
+
+fn leak_case(idx: u64, seed: u64, o: &mut CaseOut) {
+    let k = (idx as usize) % LEAK_OPS.len();
+    let mut r = Rng::for_case(1313, seed, idx);
+    let f = fixtures(&mut r);
+    for i in 0..3 {
+        leak_op(k, &f, i);
+    }
+    let (b0, _) = alloc::live();
+    for i in 0..8 {
+        leak_op(k, &f, 10 + i);
+    }
+    let (b1, _) = alloc::live();
+    for i in 0..32 {
+        leak_op(k, &f, 100 + i);
+    }
+    let (b2, _) = alloc::live();
+    let (d1, d2) = (b1 - b0, b2 - b1);
+    o.check(!(d1 > 0 && d2 > 0 && d2 >= 2 * d1), "heap-grows-with-repetitions", || {
+        format!("{}: live heap grew by {d1} bytes over 8 calls and by {d2} bytes over 32 more calls", LEAK_OPS[k])
+    });
+    let mut fp = Fp::new();
+    fp.s("leak").us(k);
+    f.m.fingerprint(&mut fp);
+    o.fp = fp.0;
+    o.nontrivial = true;
+    o.bump("part=leak");
+    o.bumpn("leak_op", k);
+    if o.want_desc {
+        o.desc = format!("heap growth of {} on D: {} E: {}", LEAK_OPS[k], f.m.describe(), f.m2.describe());
+    }
+}
+
+// ---- short programs --------------------------------------------------------
+
+enum Val {
+    AL(AdjacencyList),
+    AM(AdjacencyMap),
+    MX(AdjacencyMatrix),
+    EL(EdgeList),
+    WU(AdjacencyListWeighted<usize>),
+    WI(AdjacencyListWeighted<isize>),
+}
+
+fn val_model(v: &Val) -> Model {
+    fn of<D: Vertices + Arcs>(d: &D) -> Model {
+        let mut m = Model::default();
+        for v in d.vertices() {
+            m.verts.insert(v);
+        }
+        for (u, v) in d.arcs() {
+            m.arcs.insert((u, v), 1);
+        }
+        m
+    }
+    match v {
+        Val::AL(d) => of(d),
+        Val::AM(d) => of(d),
+        Val::MX(d) => of(d),
+        Val::EL(d) => of(d),
+        Val::WU(d) => of(d),
+        Val::WI(d) => of(d),
+    }
+}
+
+fn program(r: &mut Rng, max: usize, log: &mut Vec<String>) {
+    let mut pool: Vec<Val> = Vec::new();
+    let m0 = small_model(r, max);
+    pool.push(match r.below(6) {
+        0 => Val::AL(AdjacencyList::build(&m0)),
+        1 => Val::AM(AdjacencyMap::build(&m0)),
+        2 => Val::AM(build_map_any(&gen::sparsify(r, &m0))),
+        3 => Val::MX(AdjacencyMatrix::build(&m0)),
+        4 => Val::EL(EdgeList::build(&m0)),
+        _ => Val::WU(build_w_usize(&w_usize(r, &m0))),
+    });
+    log.push(format!("start {}", val_model(&pool[0]).describe()));
+    let steps = r.range(2, 6);
+    for _ in 0..steps {
+        let i = r.below(pool.len());
+        let j = r.below(pool.len());
+        let m = val_model(&pool[i]);
+        let (a, b) = (arg(r, &m), arg(r, &m));
+        let op = r.below(9);
+        let mut new: Option<Val> = None;
+        match op {
+            0 => {
+                // traversal
+                let t = r.below(TRAV.len());
+                let s = srcs(r, &m);
+                log.push(format!("#{i}.{}(sources={s:?}, target={a})", TRAV[t]));
+                match &pool[i] {
+                    Val::AL(d) => traverse(d, t, &s, a),
+                    Val::AM(d) => traverse(d, t, &s, a),
+                    Val::MX(d) => traverse(d, t, &s, a),
+                    Val::EL(d) => traverse(d, t, &s, a),
+                    Val::WU(d) => traverse(d, t, &s, a),
+                    Val::WI(d) => traverse(d, t, &s, a),
+                }
+            }
+            1 => {
+                let q = r.below(QUERY.len());
+                let walk = vec![a, b, a];
+                log.push(format!("#{i}.{}({a},{b})", QUERY[q]));
+                match &pool[i] {
+                    Val::AL(d) => query(d, q, a, b, &walk),
+                    Val::AM(d) => query(d, q, a, b, &walk),
+                    Val::MX(d) => query(d, q, a, b, &walk),
+                    Val::EL(d) => query(d, q, a, b, &walk),
+                    Val::WU(d) => query(d, q, a, b, &walk),
+                    Val::WI(d) => query(d, q, a, b, &walk),
+                }
+            }
+            2 => {
+                log.push(format!("#{i}.add_arc({a},{b}); remove_arc({b},{a}); remove_arc({a},{b})"));
+                match &mut pool[i] {
+                    Val::AL(d) => mutate(d, a, b),
+                    Val::AM(d) => mutate(d, a, b),
+                    Val::MX(d) => {
+                        mutate(d, a, b);
+                        let _ = catch(|| d.toggle(b, a));
+                    }
+                    Val::EL(d) => mutate(d, a, b),
+                    Val::WU(d) => {
+                        let _ = catch(|| d.add_arc_weighted(a, b, 2));
+                    }
+                    Val::WI(d) => {
+                        let _ = catch(|| d.add_arc_weighted(a, b, -2));
+                    }
+                }
+            }
+            3 => {
+                let k = r.below(2);
+                log.push(format!("#new = #{i}.{}()", ALGEBRA[k]));
+                new = match &pool[i] {
+                    Val::AL(d) => catch(|| if k == 0 { d.complement() } else { d.converse() }).ok().map(Val::AL),
+                    Val::AM(d) => catch(|| if k == 0 { d.complement() } else { d.converse() }).ok().map(Val::AM),
+                    Val::MX(d) => catch(|| if k == 0 { d.complement() } else { d.converse() }).ok().map(Val::MX),
+                    Val::EL(d) => catch(|| if k == 0 { d.complement() } else { d.converse() }).ok().map(Val::EL),
+                    Val::WU(d) => catch(|| d.converse()).ok().map(Val::WU),
+                    Val::WI(d) => catch(|| d.converse()).ok().map(Val::WI),
+                };
+            }
+            4 => {
+                log.push(format!("#new = #{i}.union(#{j})"));
+                new = match (&pool[i], &pool[j]) {
+                    (Val::AL(x), Val::AL(y)) => catch(|| x.union(y)).ok().map(Val::AL),
+                    (Val::AM(x), Val::AM(y)) => catch(|| x.union(y)).ok().map(Val::AM),
+                    (Val::MX(x), Val::MX(y)) => catch(|| x.union(y)).ok().map(Val::MX),
+                    (Val::EL(x), Val::EL(y)) => catch(|| x.union(y)).ok().map(Val::EL),
+                    _ => None,
+                };
+            }
+            5 => {
+                if let Val::AM(d) = &pool[i] {
+                    let k = r.below(4);
+                    log.push(format!("#new = #{i}.filter_vertices(pred {k} with {a})"));
+                    new = catch(|| match k {
+                        0 => d.filter_vertices(|v| v >= a),
+                        1 => d.filter_vertices(|v| v != a),
+                        2 => d.filter_vertices(|v| v % 2 == 1),
+                        _ => d.filter_vertices(|v| v < a),
+                    })
+                    .ok()
+                    .map(Val::AM);
+                } else {
+                    // convert into a map so that later steps can filter
+                    log.push(format!("#new = AdjacencyMap::from(#{i})"));
+                    new = match &pool[i] {
+                        Val::AL(d) => catch(|| AdjacencyMap::from(d.clone())).ok().map(Val::AM),
+                        Val::MX(d) => catch(|| AdjacencyMap::from(d.clone())).ok().map(Val::AM),
+                        Val::EL(d) => catch(|| AdjacencyMap::from(d.clone())).ok().map(Val::AM),
+                        _ => None,
+                    };
+                }
+            }
+            6 => {
+                let k = r.below(5);
+                log.push(format!("#new = convert #{i} into type {k}"));
+                macro_rules! conv {
+                    ($d:expr) => {
+                        match k {
+                            0 => catch(|| AdjacencyList::from($d.clone())).ok().map(Val::AL),
+                            1 => catch(|| AdjacencyMatrix::from($d.clone())).ok().map(Val::MX),
+                            2 => catch(|| EdgeList::from($d.clone())).ok().map(Val::EL),
+                            3 => catch(|| AdjacencyListWeighted::<usize>::from($d.clone())).ok().map(Val::WU),
+                            _ => catch(|| AdjacencyListWeighted::<isize>::from($d.clone())).ok().map(Val::WI),
+                        }
+                    };
+                }
+                new = match &pool[i] {
+                    Val::AM(d) => conv!(d),
+                    Val::AL(d) => match k {
+                        0 => catch(|| AdjacencyMap::from(d.clone())).ok().map(Val::AM),
+                        1 => catch(|| AdjacencyMatrix::from(d.clone())).ok().map(Val::MX),
+                        2 => catch(|| EdgeList::from(d.clone())).ok().map(Val::EL),
+                        3 => catch(|| AdjacencyListWeighted::<usize>::from(d.clone())).ok().map(Val::WU),
+                        _ => catch(|| AdjacencyListWeighted::<isize>::from(d.clone())).ok().map(Val::WI),
+                    },
+                    Val::MX(d) => match k {
+                        0 => catch(|| AdjacencyList::from(d.clone())).ok().map(Val::AL),
+                        1 => catch(|| AdjacencyMap::from(d.clone())).ok().map(Val::AM),
+                        2 => catch(|| EdgeList::from(d.clone())).ok().map(Val::EL),
+                        3 => catch(|| AdjacencyListWeighted::<usize>::from(d.clone())).ok().map(Val::WU),
+                        _ => catch(|| AdjacencyListWeighted::<isize>::from(d.clone())).ok().map(Val::WI),
+                    },
+                    Val::EL(d) => match k {
+                        0 => catch(|| AdjacencyList::from(d.clone())).ok().map(Val::AL),
+                        1 => catch(|| AdjacencyMatrix::from(d.clone())).ok().map(Val::MX),
+                        2 => catch(|| AdjacencyMap::from(d.clone())).ok().map(Val::AM),
+                        3 => catch(|| AdjacencyListWeighted::<usize>::from(d.clone())).ok().map(Val::WU),
+                        _ => catch(|| AdjacencyListWeighted::<isize>::from(d.clone())).ok().map(Val::WI),
+                    },
+                    _ => None,
+                };
+            }
+            7 => {
+                log.push(format!("#{i}: weighted / map algorithms (source {a})"));
+                match &pool[i] {
+                    Val::WU(d) => {
+                        let _ = catch(|| DijkstraDist::new(d, [a].into_iter()).distances());
+                        let _ = catch(|| DijkstraPred::new(d, [a, b].into_iter()).shortest_path(|v| v == b));
+                        let _ = catch(|| Dijkstra::new(d, [a].into_iter()).take(CAP).count());
+                    }
+                    Val::WI(d) => {
+                        let _ = catch(|| BellmanFordMoore::new(d, a).distances().map(<[isize]>::to_vec));
+                        let _ = catch(|| FloydWarshall::new(d).distances().center());
+                    }
+                    Val::AM(d) => {
+                        let _ = catch(|| Johnson75::new(d).circuits().len());
+                        let _ = catch(|| Tarjan::new(d).components().len());
+                        let _ = catch(|| (d.is_semicomplete(), d.is_tournament()));
+                    }
+                    Val::AL(d) => {
+                        let _ = catch(|| (d.is_semicomplete(), d.is_tournament(), d.degree_sequence().count()));
+                    }
+                    Val::MX(d) => {
+                        let _ = catch(|| (d.is_semicomplete(), d.is_complete()));
+                    }
+                    Val::EL(d) => {
+                        let _ = catch(|| (d.is_semicomplete(), d.is_complete()));
+                    }
+                }
+            }
+            _ => {
+                // a fresh generator value
+                let n = r.range(1, max);
+                let s = r.next();
+                let g = r.below(4);
+                log.push(format!("#new = generator {g} order {n}"));
+                new = match g {
+                    0 => catch(|| AdjacencyMap::random_tournament(n, s)).ok().map(Val::AM),
+                    1 => catch(|| AdjacencyList::erdos_renyi(n, 0.4, s)).ok().map(Val::AL),
+                    2 => catch(|| AdjacencyMap::erdos_renyi(n, 0.7, s)).ok().map(Val::AM),
+                    _ => catch(|| AdjacencyMatrix::random_recursive_tree(n, s)).ok().map(Val::MX),
+                };
+            }
+        }
+        if let Some(v) = new {
+            pool.push(v);
+        }
+    }
+}
+
+pub fn case(idx: u64, seed: u64, p: &Params, o: &mut CaseOut) {
+    let part = p.str("part", "probe");
+    let max = p.usize("max_order", 7);
+    match part.as_str() {
+        "leak" => leak_case(idx, seed, o),
+        "prog" => {
+            let mut r = Rng::for_case(1314, seed, idx);
+            let mut log = Vec::new();
+            program(&mut r, max, &mut log);
+            o.comparisons += 1;
+            let mut fp = Fp::new();
+            for l in &log {
+                fp.s(l);
+            }
+            o.fp = fp.0;
+            o.nontrivial = log.iter().any(|l| l.contains("1048576") || l.contains("1000") || l.contains("V=["));
+            o.bump("part=prog");
+            o.bumpn("steps", log.len() - 1);
+            if o.want_desc {
+                o.desc = format!("program: {}", log.join("; "));
+            }
+        }
+        _ => {
+            let np = n_probes();
+            let id = (idx as usize) % np;
+            let mut r = Rng::for_case(1315, seed, idx);
+            let d = probe(id, &mut r, max);
+            o.comparisons += 1;
+            let mut fp = Fp::new();
+            fp.s(&d);
+            o.fp = fp.0;
+            o.nontrivial = d.contains("1048576") || d.contains("1000") || d.contains("V=[") || d.contains("2^32") || d.contains("order-0");
+            o.bump("part=probe");
+            o.bumpn("probe", id);
+            if o.want_desc {
+                o.desc = format!("probe {id}/{np}: {d}");
+            }
+        }
+    }
 }
